@@ -2,6 +2,8 @@
 from ..common import Case, hx, parse_fields, parse_list, is_crash, log_entries
 from .. import gen as G
 
+from .C01 import deliver
+
 LEVEL = 'proof'
 TRUSTED = ['Lean 4 kernel; axioms propext, Classical.choice, Quot.sound only',
            'core::num from_str_radix and str::parse::<f32|f64> are re-stated in Lean (exact round-to-nearest-even), not verified; validated by CONV ops against python big-integer / exact-rational arithmetic',
@@ -150,7 +152,7 @@ def run_cases(rng, tier, ifaces):
         if r < 0.55:
             text, entry, _ = G.valid_call(rng, echo, d, newline=False)
             text = text + b'\n'
-            out.append(Case(f'RUN echo std {hx(text)}', run_oracle, {'log': [entry], 'errs': G.decl_errs(d), 'kind': 'RUN-valid'}))
+            out.append(Case(deliver(rng, 'echo', text) if not d.query else f'RUN echo std {hx(text)}', run_oracle, {'log': [entry], 'errs': G.decl_errs(d), 'kind': 'RUN-valid'}))
         elif r < 0.8:
             # one mismatching literal: first failing conversion, left to right
             k = rng.randrange(len(d.args))
@@ -166,7 +168,7 @@ def run_cases(rng, tier, ifaces):
                 lits.append(t)
             mn, q = G.render_header(rng, d.cmd)
             text = G.render_unit(rng, mn, q, lits) + b'\n'
-            out.append(Case(f'RUN echo std {hx(text)}', run_oracle, {'log': [], 'errs': [experr], 'kind': 'RUN-mismatch'}))
+            out.append(Case(deliver(rng, 'echo', text), run_oracle, {'log': [], 'errs': [experr], 'kind': 'RUN-mismatch'}))
         else:
             # wrong number of parameters
             want = len(d.args)
@@ -174,7 +176,7 @@ def run_cases(rng, tier, ifaces):
             lits = [G.literal(rng, rng.choice(d.args), newline=False)[0] for _ in range(have)]
             mn, q = G.render_header(rng, d.cmd)
             text = G.render_unit(rng, mn, q, lits) + b'\n'
-            out.append(Case(f'RUN echo std {hx(text)}', run_oracle, {'log': [], 'errs': ['-115'], 'any_one_error': have > 10, 'kind': 'RUN-arity'}))
+            out.append(Case(deliver(rng, 'echo', text), run_oracle, {'log': [], 'errs': ['-115'], 'any_one_error': have > 10, 'kind': 'RUN-arity'}))
     # a handler with exactly MAX_ARGS parameters given all of them correctly plus surplus ones:
     # the surplus must not be dropped silently
     many = [d for d in echo.decls if len(d.args) == 10]
